@@ -210,4 +210,8 @@ def check(run, model, tier):
         run.inst('ATOMIC.timer-post', t, 'test-and-post under a lock shared with cancel', locked,
                  '' if locked else 'a timed source whose run flag stop() clears between the timer\'s is_set() test and its post still posts one event after stop() returned',
                  obligation=True)
+    # a source whose flag stop() cleared while it slept must not fire when it wakes
+    run.rule('ORDER.timer-retest', 'the timer re-tests its run flag between its sleep and its post')
+    from props.c11 import timer_retest
+    timer_retest(run, gt, t, posts, rule='ORDER.timer-retest')
     run.assume('Thread.join() returns when the target returns; posting the stop item wakes the consumer (token protocol: C04)')
